@@ -549,7 +549,8 @@ impl Disk {
             let ptr = u16::from_le_bytes([index_block[idx],index_block[idx+256]]);
             let mut bytes = 512;
             if *eof + bytes > entry.eof() {
-                bytes = entry.eof() - *eof;
+                // the end of file mark can lie before the last block (inconsistent entry): nothing of this block counts then
+                bytes = entry.eof().saturating_sub(*eof);
             }
             if ptr>0 {
                 self.read_block(buf,ptr as usize,0)?;
@@ -1231,7 +1232,8 @@ impl super::DiskFS for Disk {
                         }
                     }
                 }
-                if end>128*256 || blocks_needed > self.num_free_blocks()? as usize {
+                // the end of file mark is 3 bytes long: 128 index blocks filled to the last byte are one byte too many
+                if end>128*256 || fimg.get_eof()>0xffffff || blocks_needed > self.num_free_blocks()? as usize {
                     return Err(Box::new(Error::DiskFull));
                 }
                 // update the file count in the parent key block
